@@ -20,6 +20,8 @@ DOCS = {
     'crlf': '2000-01-01 open Assets:A USD, EUR "STRICT" ; ic\r\n  kk: NULL\r\n\r\n2000-01-02 custom "t" "s" TRUE 1 USD\r\n',
     'nonl': '2000-01-01 note Assets:Foo "first\nsecond"',
     'onecomment': '; a\n; b',
+    # multi-line tokens exactly as wide as the replacement (frame + 2 code points): an update that keeps the width but removes the line breaks
+    'samewidth': 'plugin "\nx" "y\n"\n;\n;\n2000-01-01 note Assets:A "\n\n" #ab\n',
 }
 # frame per class: (prefix, suffix) around the symbolic code points; None = alternatives list (raw_text only)
 FRAMES = {
